@@ -1,6 +1,207 @@
+/- BUILD / LIT / SYM suites of the driver: run the builder model, the literal parsers and `symbol_value`.
+
+   SYM   \t id \t <escaped name>                       → decimal u64
+   LIT   \t id \t kind \t <escaped literal text>        → `ok <value>` | `err` | `PANIC <site>`
+            kind ∈ number | charlist | bytelist | symbol   (symbol: the token text, `&text[1..]` is applied as in build.rs)
+   BUILD \t id \t store \t n_pre \t TypeName,<escaped text> ...
+            → `parseerr` | `err` | `PANIC <site>` | `FUELOUT` |
+              `ok entry=<jump index> I=[<instr>;..] J=[<n>;..] M=[<n or ->;..]`
+            the complete instruction vector / jump table / metadata of the object after `n_pre` builds of the
+            prelude `5 + 5` followed by the build of the given token list.  -/
 import Garnish.Driver.Proto
+import Garnish.Driver.ValIO
+import Garnish.Model.Build
 namespace Garnish.Driver
-def buildCase (_f : List String) : String := "UNIMPLEMENTED"
-def litCase (_f : List String) : String := "UNIMPLEMENTED"
-def symCase (_f : List String) : String := "UNIMPLEMENTED"
+open Garnish Garnish.Gen Garnish.Model.Parser Garnish.Model.Literals Garnish.Model.Build
+
+/-! ### `f64::from_str`: grammar of core::num::dec2flt and exact (round-half-even) decimal → binary64 -/
+
+/-- bits of the binary64 nearest to `m · 10^e10` (positive, `m > 0`), ties to even; overflow = +inf -/
+def decToF64Bits (m : Nat) (e10 : Int) : UInt64 :=
+  let num : Nat := if e10 ≥ 0 then m * 10 ^ e10.toNat else m
+  let den : Nat := if e10 ≥ 0 then 1 else 10 ^ (-e10).toNat
+  -- q = ⌊num / (den · 2^e2)⌋ with remainder information
+  let divAt (e2 : Int) : Nat × Nat × Nat :=
+    let dividend := if e2 ≥ 0 then num else num * 2 ^ (-e2).toNat
+    let divisor := if e2 ≥ 0 then den * 2 ^ e2.toNat else den
+    (dividend / divisor, dividend % divisor, divisor)
+  let l : Int := (num.log2 : Int) - (den.log2 : Int)
+  let e2 : Int := l - 52
+  let e2 : Int := if (divAt e2).1 < 2 ^ 52 then e2 - 1 else e2
+  let e2 : Int := if e2 < -1074 then -1074 else e2
+  let (q, r, d) := divAt e2
+  let q := if 2 * r > d then q + 1 else if 2 * r == d ∧ q % 2 == 1 then q + 1 else q
+  let (q, e2) := if q == 2 ^ 53 then (2 ^ 52, e2 + 1) else (q, e2)
+  if q < 2 ^ 52 then UInt64.ofNat q                       -- subnormal (e2 = -1074) or zero
+  else
+    let biased : Int := e2 + 1075
+    if biased ≥ 2047 then 0x7ff0000000000000
+    else UInt64.ofNat (biased.toNat * 2 ^ 52 + (q - 2 ^ 52))
+
+def isDigitC (c : Char) : Bool := '0' ≤ c && c ≤ '9'
+
+def natOfDigits (ds : List Char) : Nat := ds.foldl (fun a c => a * 10 + (c.toNat - 48)) 0
+
+def lowerAscii (c : Char) : Char := if 'A' ≤ c && c ≤ 'Z' then Char.ofNat (c.toNat + 32) else c
+
+/-- Rust `f64::from_str` -/
+def parseFloatImpl (s : List Char) : Option Float :=
+  let (neg, rest) : Bool × List Char :=
+    match s with
+    | '-' :: r => (true, r)
+    | '+' :: r => (false, r)
+    | _ => (false, s)
+  let signBit : UInt64 := if neg then 0x8000000000000000 else 0
+  let lower := String.ofList (rest.map lowerAscii)
+  if lower == "inf" || lower == "infinity" then some (Float.ofBits (signBit ||| 0x7ff0000000000000))
+  else if lower == "nan" then some (Float.ofBits 0x7ff8000000000000)
+  else
+    let intDigits := rest.takeWhile isDigitC
+    let r := rest.dropWhile isDigitC
+    let (fracDigits, r) : List Char × List Char :=
+      match r with
+      | '.' :: r' => (r'.takeWhile isDigitC, r'.dropWhile isDigitC)
+      | _ => ([], r)
+    if intDigits.length + fracDigits.length == 0 then none
+    else
+      let exp : Option Int :=
+        match r with
+        | [] => some 0
+        | c :: r' =>
+          if c == 'e' || c == 'E' then
+            let (eneg, ds) : Bool × List Char :=
+              match r' with
+              | '-' :: d => (true, d)
+              | '+' :: d => (false, d)
+              | _ => (false, r')
+            if ds.isEmpty || !ds.all isDigitC then none
+            else
+              let v : Int := natOfDigits ds
+              some (if eneg then -v else v)
+          else none
+      match exp with
+      | none => none
+      | some exp =>
+        let digits := intDigits ++ fracDigits
+        let m := natOfDigits digits
+        let e10 : Int := exp - fracDigits.length
+        if m == 0 then some (Float.ofBits signBit)
+        else
+          -- magnitude ≈ 10^(e10 + #digits): clamp before building huge powers
+          let mag : Int := e10 + digits.length
+          if mag > 400 then some (Float.ofBits (signBit ||| 0x7ff0000000000000))
+          else if mag < -400 then some (Float.ofBits signBit)
+          else some (Float.ofBits (signBit ||| decToF64Bits m e10))
+
+/-! ### token fields (same format as the PARSE suite; kept local so that this file does not depend on ParseDrv) -/
+
+/-- `TypeName,<escaped text>` → token (row/col are 0 as in the harness) -/
+def buildTokenField (s : String) : Option PToken :=
+  let cs := s.toList
+  let name := cs.takeWhile (· != ',')
+  match cs.dropWhile (· != ',') with
+  | [] => none
+  | _ :: text =>
+    match TokenType.ofName? (String.ofList name) with
+    | none => none
+    | some tt => some { text := Garnish.Proto.unescape text, type := tt, row := 0, col := 0 }
+
+def buildTokenFields : List String → Option (List PToken)
+  | [] => some []
+  | f :: rest =>
+    match buildTokenField f, buildTokenFields rest with
+    | some t, some ts => some (t :: ts)
+    | _, _ => none
+
+def showOptIdx : Option Nat → String
+  | none => "-"
+  | some n => toString n
+
+/-! ### rendering -/
+
+def showOutcomeVal : Outcome V → String
+  | .ok v => "ok " ++ showVal v
+  | .err _ => "err"
+  | .panic site => s!"PANIC {site}"
+  | .fuelOut => "FUELOUT"
+
+def litCase (f : List String) : String :=
+  match f with
+  | _ :: _ :: kind :: rest =>
+    let text := Garnish.Proto.unescape (rest.headD "").toList
+    match kind with
+    | "number" => showOutcomeVal (Outcome.bind (parseSimpleNumber parseFloatImpl text) fun n => .ok (.num n))
+    | "charlist" => showOutcomeVal (Outcome.bind (parseCharList parseFloatImpl text) fun cs => .ok (.chars (cs.map Char.toNat)))
+    | "bytelist" => showOutcomeVal (Outcome.bind (parseByteList parseFloatImpl text) fun bs => .ok (.bytes bs))
+    | "symbol" =>
+      match dropFirstByte text with
+      | none => "PANIC str slice [1..]"
+      | some r => showOutcomeVal (.ok (.sym (parseSymbol r)))
+    | _ => "BAD-CASE"
+  | _ => "BAD-CASE"
+
+def symCase (f : List String) : String :=
+  match f with
+  | _ :: _ :: rest =>
+    let name := Garnish.Proto.unescape (rest.headD "").toList
+    toString (Garnish.Model.SipHash.symbolValue name).toNat
+  | _ => "BAD-CASE"
+
+def joinWith (sep : String) : List String → String
+  | [] => ""
+  | [x] => x
+  | x :: xs => x ++ sep ++ joinWith sep xs
+
+def showInstr (d : BState Float) (i : Instr) : String :=
+  match i with
+  | (ins, none) => ins.name
+  | (ins, some k) =>
+    if ins == .put || ins == .resolve then
+      match d.consts[k]? with
+      | some v => ins.name ++ ":" ++ showVal v
+      | none => ins.name ++ ":<bad-addr>"
+    else ins.name ++ ":" ++ toString k
+
+def showBState (d : BState Float) (entry : Nat) : String :=
+  s!"ok entry={entry} I=[" ++ joinWith ";" (d.instrs.toList.map (showInstr d)) ++ "] J=["
+    ++ joinWith ";" (d.jumps.toList.map toString) ++ "] M=[" ++ joinWith ";" (d.metadata.toList.map showOptIdx) ++ "]"
+
+/-- tokens of the prelude program `5 + 5` -/
+def preludeTokens : List PToken :=
+  [⟨['5'], .number, 0, 0⟩, ⟨[' '], .whitespace, 0, 0⟩, ⟨['+'], .plusSign, 0, 0⟩, ⟨[' '], .whitespace, 0, 0⟩, ⟨['5'], .number, 0, 0⟩]
+
+/-- parse + build one token list into `d` -/
+def buildTokens (tokens : List PToken) (d : BState Float) : Outcome (Option (BState Float × Nat)) :=
+  match parse tokens with
+  | .err _ => .ok none
+  | .panic s => .panic s
+  | .fuelOut => .fuelOut
+  | .ok r =>
+    Outcome.bind (build parseFloatImpl (defaultFuel r.nodes.size) r.root r.nodes d) fun res => .ok (some res)
+
+def buildPrelude : Nat → BState Float → Outcome (BState Float)
+  | 0, d => .ok d
+  | n + 1, d =>
+    Outcome.bind (buildTokens preludeTokens d) fun res =>
+      match res with
+      | none => .err .other
+      | some (d, _) => buildPrelude n d
+
+def buildCase (f : List String) : String :=
+  match f with
+  | _ :: _ :: _store :: npre :: fields =>
+    match npre.toNat?, buildTokenFields fields with
+    | some npre, some tokens =>
+      match buildPrelude npre BState.empty with
+      | .ok d =>
+        match buildTokens tokens d with
+        | .ok none => "parseerr"
+        | .ok (some (d, entry)) => showBState d entry
+        | .err _ => "err"
+        | .panic site => s!"PANIC {site}"
+        | .fuelOut => "FUELOUT"
+      | _ => "PRELUDE-FAILED"
+    | _, _ => "BAD-CASE"
+  | _ => "BAD-CASE"
+
 end Garnish.Driver
